@@ -34,6 +34,7 @@ fn main() {
         ("record", "session") => limits::record_session(&args[3]),
         ("record", "samples") => limits::record_samples(&args[3]),
         ("replay", "chain") => chain::replay(&args[3], &args[4]),
+        ("replay", "chainedge") => chain::replay_edge(&args[3], &args[4]),
         ("replay", "chainik") => chain::replay_ik(&args[3], &args[4]),
         ("record", "fk") => chain::record(&args[3]),
         ("replay", "stack") => stack::replay(&args[3], &args[4]),
